@@ -1,6 +1,7 @@
 import Sudachi.Proofs.Sentence
 import Sudachi.Proofs.SentenceConv
 import Sudachi.Proofs.SentenceSame
+import Sudachi.Proofs.SentenceFix
 /-!
 # C16 — Sentence splitting partitions the text and breaks only after terminators
 
@@ -13,6 +14,13 @@ without a dictionary checker (any list of lexicons, each any list of byte-string
 `.panic` = the Rust code panics (only possible in `has_non_break_word` when a key matches from inside
 a character, which valid UTF-8 keys cannot); `.fuelOut` = the iterator did not stop after
 `text.length` calls of `next`.
+
+Every function takes the variant `v : CkVariant` of the `Ordering::Equal` arm of `has_non_break_word`:
+`.cur` = the code as it was (`input[i..].chars().take(2).count() > 1`, returned at once — defect D12),
+`.fix` = the repaired arm (`if input[i..end_byte].chars().take(2).count() > 1 { return true; }`).
+The harness selects the variant by probing `sentence_detector.rs`.  Theorems that do not depend on the
+checker's answer are stated for every `v`; the clauses about the checker are stated once per variant
+(`…` for `.cur`, `…_fix` for `.fix`, the latter without the D12 exclusion).
 -/
 namespace C16
 open Sentence
@@ -21,10 +29,10 @@ open Sentence
 stops within `text.length` steps, and the produced ranges are non-empty, contiguous from byte 0 to
 the byte length of the text, each range is exactly as long as its slice, and the slices concatenate
 to the text. -/
-theorem split_partition (limit : Nat) (hl : 1 ≤ limit) (ck : Option (List (List (List Nat))))
+theorem split_partition (v : CkVariant) (limit : Nat) (hl : 1 ≤ limit) (ck : Option (List (List (List Nat))))
     (text : Text) :
-    split limit ck text ≠ .fuelOut ∧
-    ∀ l, split limit ck text = .ok l →
+    split v limit ck text ≠ .fuelOut ∧
+    ∀ l, split v limit ck text = .ok l →
       Contig 0 l (blen text) ∧ (l.map (·.chunk)).flatten = text := by
   refine ⟨splitFuel_terminates hl _ _ _ (Nat.le_refl _), ?_⟩
   intro l h
@@ -34,11 +42,11 @@ theorem split_partition (limit : Nat) (hl : 1 ≤ limit) (ck : Option (List (Lis
 /-- **Ranges are on character boundaries and each sentence equals the text in its range**: every
 produced sentence `x` splits the text as `pre ++ x.chunk ++ post` with `x.b` = byte length of `pre`
 and `x.e` = byte length of `pre ++ x.chunk`; ranges are non-empty. -/
-theorem sentences_are_slices (limit : Nat) (hl : 1 ≤ limit) (ck : Option (List (List (List Nat))))
-    (text : Text) (l : List Sent) (h : split limit ck text = .ok l) :
+theorem sentences_are_slices (v : CkVariant) (limit : Nat) (hl : 1 ≤ limit) (ck : Option (List (List (List Nat))))
+    (text : Text) (l : List Sent) (h : split v limit ck text = .ok l) :
     ∀ x ∈ l, ∃ pre post, text = pre ++ x.chunk ++ post ∧ x.b = blen pre ∧
       x.e = blen (pre ++ x.chunk) ∧ x.b < x.e := by
-  obtain ⟨hc, hf⟩ := (split_partition limit hl ck text).2 l h
+  obtain ⟨hc, hf⟩ := (split_partition v limit hl ck text).2 l h
   intro x hx
   obtain ⟨pre, post, hsplit, hb, he⟩ := contig_slice l 0 _ hc x hx
   rw [hf] at hsplit
@@ -59,10 +67,10 @@ theorem sentences_are_slices (limit : Nat) (hl : 1 ≤ limit) (ck : Option (List
 
 /-- **Link between the iterator and `get_eos`**: every sentence except the last is a non-negative
 answer of `get_eos` on the text from the start of that sentence. -/
-theorem nonlast_is_get_eos (limit : Nat) (hl : 1 ≤ limit) (ck : Option (List (List (List Nat))))
-    (text : Text) (l : List Sent) (h : split limit ck text = .ok l) :
+theorem nonlast_is_get_eos (v : CkVariant) (limit : Nat) (hl : 1 ≤ limit) (ck : Option (List (List (List Nat))))
+    (text : Text) (l : List Sent) (h : split v limit ck text = .ok l) :
     ∀ x ∈ l.dropLast, ∃ pre post, text = pre ++ x.chunk ++ post ∧ x.chunk ≠ [] ∧
-      getEos limit ck (x.chunk ++ post) = .ok (.pos x.chunk.length) :=
+      getEos v limit ck (x.chunk ++ post) = .ok (.pos x.chunk.length) :=
   splitFuel_link hl _ _ _ _ h
 
 /-- a sentence ends with a terminator, optionally followed by closing brackets, commas or further
@@ -73,12 +81,12 @@ def EndsWithTerminator (u : Text) : Prop :=
 /-- **Every sentence except the last ends with a sentence terminator** (`。？！♪…?!`, a period,
 three or more `・`, two or more `<br>`/`<BR>`), optionally followed by closing brackets, commas or
 further terminators. -/
-theorem nonlast_ends_with_terminator (limit : Nat) (hl : 1 ≤ limit)
+theorem nonlast_ends_with_terminator (v : CkVariant) (limit : Nat) (hl : 1 ≤ limit)
     (ck : Option (List (List (List Nat)))) (text : Text) (l : List Sent)
-    (h : split limit ck text = .ok l) :
+    (h : split v limit ck text = .ok l) :
     ∀ x ∈ l.dropLast, EndsWithTerminator x.chunk := by
   intro x hx
-  obtain ⟨pre, post, _, hne, hg⟩ := nonlast_is_get_eos limit hl ck text l h x hx
+  obtain ⟨pre, post, _, hne, hg⟩ := nonlast_is_get_eos v limit hl ck text l h x hx
   have hne' : x.chunk ++ post ≠ [] := by simp [hne]
   obtain ⟨p, t, tt, ext, hshape, hterm, htt, _, hext⟩ := getEos_pos_chunk hl hne' hg
   simp only [List.take_left'] at hshape
@@ -93,27 +101,27 @@ theorem nonlast_ends_with_terminator (limit : Nat) (hl : 1 ≤ limit)
 level (opening brackets minus closing ones, never below 0, counted from the start of the sentence)
 is 0 at the end of the terminator, only non-opening characters follow, and the level at the break
 is 0. -/
-theorem no_break_in_open_bracket (limit : Nat) (hl : 1 ≤ limit)
+theorem no_break_in_open_bracket (v : CkVariant) (limit : Nat) (hl : 1 ≤ limit)
     (ck : Option (List (List (List Nat)))) (text : Text) (l : List Sent)
-    (h : split limit ck text = .ok l) :
+    (h : split v limit ck text = .ok l) :
     ∀ x ∈ l.dropLast, ∃ body ext, x.chunk = body ++ ext ∧ parenLevel body = 0 ∧
       (∀ c ∈ ext, isProhibitedBos c = true) ∧ parenLevel x.chunk = 0 := by
   intro x hx
-  obtain ⟨pre, post, _, hne, hg⟩ := nonlast_is_get_eos limit hl ck text l h x hx
+  obtain ⟨pre, post, _, hne, hg⟩ := nonlast_is_get_eos v limit hl ck text l h x hx
   have hne' : x.chunk ++ post ≠ [] := by simp [hne]
   obtain ⟨p, t, tt, ext, hshape, _, _, hlev, hext⟩ := getEos_pos_chunk hl hne' hg
   simp only [List.take_left'] at hshape
   exact ⟨p ++ (t ++ tt), ext, hshape, hlev, hext, by rw [hshape]; exact parenLevel_append_tail _ _ hlev hext⟩
 
 /-- **No break inside a multi-character dictionary word that contains or ends with the terminator**
-(within the 30-byte look-back of the checker).  If `get_eos` with a checker answers a break after `e`
+(within the 30-byte look-back of the checker), **code as it was (`.cur`)**.  If `get_eos` with a checker answers a break after `e`
 characters, then for every byte offset `i` in the look-back window and every non-empty key of any
 lexicon that matches the input at `i`: the key ends before the break, or it ends exactly at the
 break and starts inside the last character of the input (a one-character word at the end of the
 text).  In particular no key crosses the break and no key of two or more characters ends at it. -/
 theorem no_break_in_multichar_word (limit : Nat) (hl : 1 ≤ limit) (lexs : List (List (List Nat)))
     (input : Text) (hne : input ≠ []) (e : Nat)
-    (h : getEos limit (some lexs) input = .ok (.pos e)) :
+    (h : getEos .cur limit (some lexs) input = .ok (.pos e)) :
     ∀ i, blen (input.take e) - 30 ≤ i → i < blen (input.take e) →
       ∀ lex ∈ lexs, ∀ key ∈ lex, key ≠ [] → key <+: (utf8 input).drop i →
         i + key.length < blen (input.take e) ∨
@@ -134,17 +142,80 @@ theorem no_break_in_multichar_word (limit : Nat) (hl : 1 ≤ limit) (lexs : List
 checker on the text from its start (`x.chunk ++ post`) -/
 theorem no_break_in_multichar_word_split (limit : Nat) (hl : 1 ≤ limit)
     (lexs : List (List (List Nat))) (text : Text) (l : List Sent)
-    (h : split limit (some lexs) text = .ok l) :
+    (h : split .cur limit (some lexs) text = .ok l) :
     ∀ x ∈ l.dropLast, ∃ pre post, text = pre ++ x.chunk ++ post ∧
       ∀ i, blen x.chunk - 30 ≤ i → i < blen x.chunk →
         ∀ lex ∈ lexs, ∀ key ∈ lex, key ≠ [] → key <+: (utf8 (x.chunk ++ post)).drop i →
           i + key.length < blen x.chunk ∨
           (i + key.length = blen x.chunk ∧ LastCharFrom (x.chunk ++ post) i) := by
   intro x hx
-  obtain ⟨pre, post, hsplit, hne, hg⟩ := nonlast_is_get_eos limit hl _ text l h x hx
+  obtain ⟨pre, post, hsplit, hne, hg⟩ := nonlast_is_get_eos .cur limit hl _ text l h x hx
   refine ⟨pre, post, hsplit, ?_⟩
   have := no_break_in_multichar_word limit hl lexs (x.chunk ++ post) (by simp [hne]) _ hg
   simpa only [List.take_left'] using this
+
+/-- **No break inside a multi-character dictionary word, repaired checker (`.fix`).**  If `get_eos`
+with the repaired checker answers a break after `e` characters, then every non-empty key of any lexicon
+that matches the input at a byte offset `i` of the 30-byte look-back ends before the break, or ends
+exactly at the break and is exactly one character of the input (`OneCharWordAt`: the input is
+`pre ++ c :: post`, `i` is the byte length of `pre`, the key is the UTF-8 form of `c`).  The D12
+exclusion "…and starts inside the last character of the input" of the `.cur` theorem is gone: a
+one-character word may end at a break anywhere in the text. -/
+theorem no_break_in_multichar_word_fix (limit : Nat) (hl : 1 ≤ limit) (lexs : List (List (List Nat)))
+    (input : Text) (hne : input ≠ []) (e : Nat)
+    (h : getEos .fix limit (some lexs) input = .ok (.pos e)) :
+    ∀ i, blen (input.take e) - 30 ≤ i → i < blen (input.take e) →
+      ∀ lex ∈ lexs, ∀ key ∈ lex, key ≠ [] → key <+: (utf8 input).drop i →
+        i + key.length < blen (input.take e) ∨
+        (i + key.length = blen (input.take e) ∧ OneCharWordAt input i key) := by
+  obtain ⟨k, n, pv, _, _, acc⟩ := getEos_pos hl hne h
+  have hw := acc.noWord lexs rfl
+  have hle := acc.le
+  have htake : (input.take limit).take e = input.take e := by
+    rw [List.take_take]
+    congr 1
+    simp only [List.length_take] at hle
+    omega
+  rw [htake] at hw
+  exact (hasNonBreakWord_fix_false_iff lexs input _).mp hw
+
+/-- the same for the sentences of the iterator with the repaired checker -/
+theorem no_break_in_multichar_word_split_fix (limit : Nat) (hl : 1 ≤ limit)
+    (lexs : List (List (List Nat))) (text : Text) (l : List Sent)
+    (h : split .fix limit (some lexs) text = .ok l) :
+    ∀ x ∈ l.dropLast, ∃ pre post, text = pre ++ x.chunk ++ post ∧
+      ∀ i, blen x.chunk - 30 ≤ i → i < blen x.chunk →
+        ∀ lex ∈ lexs, ∀ key ∈ lex, key ≠ [] → key <+: (utf8 (x.chunk ++ post)).drop i →
+          i + key.length < blen x.chunk ∨
+          (i + key.length = blen x.chunk ∧ OneCharWordAt (x.chunk ++ post) i key) := by
+  intro x hx
+  obtain ⟨pre, post, hsplit, hne, hg⟩ := nonlast_is_get_eos .fix limit hl _ text l h x hx
+  refine ⟨pre, post, hsplit, ?_⟩
+  have := no_break_in_multichar_word_fix limit hl lexs (x.chunk ++ post) (by simp [hne]) _ hg
+  simpa only [List.take_left'] using this
+
+/-- **The repaired checker, characterised (`.fix`).**  `has_non_break_word` lets the candidate break at
+byte `eosB` pass (`.ok false`) **iff** every non-empty key that matches at a byte offset of the 30-byte
+look-back ends before the break, or ends at it and is exactly one character of the input.  (For `.cur`
+only the forward direction holds, and only with "at the very end of the text" added —
+`d12_checker_counterexample`.) -/
+theorem checker_passes_iff_fix (lexs : List (List (List Nat))) (input : Text) (eosB : Nat) :
+    hasNonBreakWord .fix lexs input eosB = .ok false ↔
+      ∀ i, eosB - 30 ≤ i → i < eosB →
+        ∀ lex ∈ lexs, ∀ key ∈ lex, key ≠ [] → key <+: (utf8 input).drop i →
+          i + key.length < eosB ∨ (i + key.length = eosB ∧ OneCharWordAt input i key) :=
+  hasNonBreakWord_fix_false_iff lexs input eosB
+
+/-- **A one-character dictionary entry never suppresses the break (`.fix`).**  When the repaired
+checker vetoes the candidate break at byte `eosB`, there is a key in the look-back that crosses the
+break, or a key that ends at it and is the UTF-8 form of two or more whole characters of the input
+(`MultiCharWordAt`) — the veto is always "inside a multi-character dictionary word". -/
+theorem checker_veto_is_multichar_word_fix (lexs : List (List (List Nat))) (input : Text) (eosB : Nat)
+    (h : hasNonBreakWord .fix lexs input eosB = .ok true) :
+    ∃ i, eosB - 30 ≤ i ∧ i < eosB ∧
+      ∃ lex ∈ lexs, ∃ key ∈ lex, key ≠ [] ∧ key <+: (utf8 input).drop i ∧
+        (eosB < i + key.length ∨ (i + key.length = eosB ∧ MultiCharWordAt input i key)) :=
+  hasNonBreakWord_fix_true h
 
 /-! ## the converse clause -/
 
@@ -163,29 +234,30 @@ that terminator or earlier (or the checker panics).  `find_iter_misses_no_termin
 `matchEnds` contains the end of *every* anchored match of SENTENCE_BREAKER in the window (a match that
 starts inside an earlier, vetoed match ends where that match ends), and
 `terminator_breaks_anywhere_partial` combines the two.  What is missing for the full statement:
-(1) terminators beyond the window (D13); (2) the checker's answer is not characterised as "inside a
-multi-character word" — it cannot be, D12. -/
-theorem terminator_breaks_partial (limit : Nat) (ck : Option (List (List (List Nat))))
+(1) terminators beyond the window (D13); (2) for `.cur` the checker's answer is not characterised as
+"inside a multi-character word" — it cannot be, D12; for `.fix` it is, see
+`terminator_breaks_fix_partial`. -/
+theorem terminator_breaks_partial (v : CkVariant) (limit : Nat) (ck : Option (List (List (List Nat))))
     (input : Text) (hne : input ≠ []) (e0 : Nat)
     (hm : e0 ∈ matchEnds 0 none 0 (input.take limit))
-    (hv : examine ck input (input.take limit) e0 ≠ .veto) :
+    (hv : examine v ck input (input.take limit) e0 ≠ .veto) :
     ∃ e0', e0' ∈ matchEnds 0 none 0 (input.take limit) ∧ e0' ≤ e0 ∧
-      ((∃ e, examine ck input (input.take limit) e0' = .accept e ∧ getEos limit ck input = .ok (.pos e)) ∨
-       (examine ck input (input.take limit) e0' = .panic ∧ getEos limit ck input = .panic)) :=
+      ((∃ e, examine v ck input (input.take limit) e0' = .accept e ∧ getEos v limit ck input = .ok (.pos e)) ∨
+       (examine v ck input (input.take limit) e0' = .panic ∧ getEos v limit ck input = .panic)) :=
   first_unvetoed_decides hne hm hv
 
 /-- Without a checker: a match of SENTENCE_BREAKER in the window whose end is at bracket level 0, whose
 window is not an itemise header and which is not followed by a continued phrase (quote particle /
 `1.と`) makes `get_eos` non-negative — the sentence ends at that terminator or earlier. -/
-theorem terminator_breaks_no_checker_partial (limit : Nat) (input : Text) (hne : input ≠ []) (e0 : Nat)
+theorem terminator_breaks_no_checker_partial (v : CkVariant) (limit : Nat) (input : Text) (hne : input ≠ []) (e0 : Nat)
     (hm : e0 ∈ matchEnds 0 none 0 (input.take limit))
     (h1 : parenLevel ((input.take limit).take e0) = 0)
     (h2 : isItemizeHeader (input.take limit) = false)
     (h3 : ∀ eos, eos = (if e0 < (input.take limit).length
               then e0 + prohibitedBos ((input.take limit).drop e0) else e0) →
             eos < (input.take limit).length → isContinuousPhrase (input.take limit) eos ≠ some true) :
-    ∃ e, getEos limit none input = .ok (.pos e) ∧ 1 ≤ e := by
-  obtain ⟨e0', hm', _, h⟩ := first_unvetoed_decides (ck := none) hne hm (not_vetoed_of h1 h2 h3)
+    ∃ e, getEos v limit none input = .ok (.pos e) ∧ 1 ≤ e := by
+  obtain ⟨e0', hm', _, h⟩ := first_unvetoed_decides (v := v) (ck := none) hne hm (not_vetoed_of h1 h2 h3)
   have hpos : 1 ≤ e0' := by have := matchEnds_lower _ _ _ _ e0' hm'; omega
   rcases h with ⟨e, hacc, hg⟩ | ⟨hp, _⟩
   · have hlen : e0' ≤ (input.take limit).length := by
@@ -197,6 +269,42 @@ theorem terminator_breaks_no_checker_partial (limit : Nat) (input : Text) (hne :
     have := (examine_accept hlen hacc).ext
     exact ⟨e, hg, by omega⟩
   · exact absurd hp (examine_none_no_panic hpos)
+
+/-- **Converse with the repaired checker (`.fix`), without the D12 exclusion.**  A match of
+SENTENCE_BREAKER in the window whose end is at bracket level 0, whose window is not an itemise header,
+which is not followed by a continued phrase, and whose (extended) end is *not inside a multi-character
+dictionary word* — no key found in the 30-byte look-back crosses it, and no key of two or more
+characters ends at it — is not vetoed: `get_eos` answers the accept of the first non-vetoed match, at
+or before it (or the checker panics on an earlier match).  One-character dictionary entries, the
+terminator itself included, do not appear in the hypotheses: they never suppress the break.
+Still `_partial` because of the window (D13): the match must lie inside `input.take limit`.
+For `.cur` this statement is false (`d12_counterexample`). -/
+theorem terminator_breaks_fix_partial (limit : Nat) (lexs : List (List (List Nat)))
+    (input : Text) (hne : input ≠ []) (e0 : Nat)
+    (hm : e0 ∈ matchEnds 0 none 0 (input.take limit))
+    (h1 : parenLevel ((input.take limit).take e0) = 0)
+    (h2 : isItemizeHeader (input.take limit) = false)
+    (h3 : ∀ eos, eos = (if e0 < (input.take limit).length
+              then e0 + prohibitedBos ((input.take limit).drop e0) else e0) →
+            eos < (input.take limit).length → isContinuousPhrase (input.take limit) eos ≠ some true)
+    (h4 : ∀ eos, eos = (if e0 < (input.take limit).length
+              then e0 + prohibitedBos ((input.take limit).drop e0) else e0) →
+            ∀ i, blen ((input.take limit).take eos) - 30 ≤ i → i < blen ((input.take limit).take eos) →
+              ∀ lex ∈ lexs, ∀ key ∈ lex, key ≠ [] → key <+: (utf8 input).drop i →
+                ¬ (blen ((input.take limit).take eos) < i + key.length) ∧
+                ¬ (i + key.length = blen ((input.take limit).take eos) ∧ MultiCharWordAt input i key)) :
+    ∃ e0', e0' ∈ matchEnds 0 none 0 (input.take limit) ∧ e0' ≤ e0 ∧
+      ((∃ e, examine .fix (some lexs) input (input.take limit) e0' = .accept e ∧
+            getEos .fix limit (some lexs) input = .ok (.pos e)) ∨
+       (examine .fix (some lexs) input (input.take limit) e0' = .panic ∧
+            getEos .fix limit (some lexs) input = .panic)) := by
+  refine first_unvetoed_decides hne hm (not_vetoed_of_checker h1 h2 h3 ?_)
+  intro eos heos htrue
+  obtain ⟨i, hi1, hi2, lex, hlex, key, hkey, hkne, hpre, hh⟩ := hasNonBreakWord_fix_true htrue
+  obtain ⟨hn1, hn2⟩ := h4 eos heos i hi1 hi2 lex hlex key hkey hkne hpre
+  rcases hh with hgt | hmulti
+  · exact hn1 hgt
+  · exact hn2 hmulti
 
 /-- `matchEnds` reports only ends of matches of SENTENCE_BREAKER (`breakerAt`) inside the window -/
 theorem match_ends_are_matches (s : Text) (e0 : Nat) (hm : e0 ∈ matchEnds 0 none 0 s) :
@@ -214,92 +322,123 @@ theorem find_iter_misses_no_terminator (s : Text) (j n : Nat)
 /-- Converse for an arbitrary terminator occurrence inside the window: if SENTENCE_BREAKER matches at
 position `j` of the window and the loop body does not veto the end of that match, `get_eos` answers a
 break that comes from a match ending at or before it (or the checker panics). -/
-theorem terminator_breaks_anywhere_partial (limit : Nat) (ck : Option (List (List (List Nat))))
+theorem terminator_breaks_anywhere_partial (v : CkVariant) (limit : Nat) (ck : Option (List (List (List Nat))))
     (input : Text) (hne : input ≠ []) (j n : Nat)
     (hb : breakerAt (prevChar (input.take limit) j) ((input.take limit).drop j) = some n)
-    (hv : examine ck input (input.take limit) (j + n) ≠ .veto) :
+    (hv : examine v ck input (input.take limit) (j + n) ≠ .veto) :
     ∃ e0', e0' ∈ matchEnds 0 none 0 (input.take limit) ∧ e0' ≤ j + n ∧
-      ((∃ e, examine ck input (input.take limit) e0' = .accept e ∧ getEos limit ck input = .ok (.pos e)) ∨
-       (examine ck input (input.take limit) e0' = .panic ∧ getEos limit ck input = .panic)) :=
+      ((∃ e, examine v ck input (input.take limit) e0' = .accept e ∧ getEos v limit ck input = .ok (.pos e)) ∨
+       (examine v ck input (input.take limit) e0' = .panic ∧ getEos v limit ck input = .panic)) :=
   first_unvetoed_decides hne (find_iter_misses_no_terminator _ j n hb) hv
 
-/-! ## where the unchanged code violates the converse clause -/
+/-! ## where the code violates the converse clause (D12: `.cur` only; D13 and the look-back: both) -/
 
 /-- **D12** (converse clause, "the terminator being itself a one-character dictionary entry never
-suppresses the break" — false on the unchanged code): with a dictionary whose only key is `。`,
+suppresses the break" — false on the code as it was, `.cur`): with a dictionary whose only key is `。`,
 `あ。あ。あ` is one sentence. -/
 theorem d12_counterexample :
-    split 4096 (some [[[0xE3, 0x80, 0x82]]]) [0x3042, 0x3002, 0x3042, 0x3002, 0x3042]
+    split .cur 4096 (some [[[0xE3, 0x80, 0x82]]]) [0x3042, 0x3002, 0x3042, 0x3002, 0x3042]
       = .ok [⟨0, 15, [0x3042, 0x3002, 0x3042, 0x3002, 0x3042]⟩] ∧
-    split 4096 none [0x3042, 0x3002, 0x3042, 0x3002, 0x3042]
+    split .cur 4096 none [0x3042, 0x3002, 0x3042, 0x3002, 0x3042]
       = .ok [⟨0, 6, [0x3042, 0x3002]⟩, ⟨6, 12, [0x3042, 0x3002]⟩, ⟨12, 15, [0x3042]⟩] := by
   decide
 
-/-- D12 at its source: the checker vetoes the break after `あ。` (byte 6) although the only key that
+/-- D12 at its source (`.cur`): the checker vetoes the break after `あ。` (byte 6) although the only key that
 matches there is the one-character word `。`; at the end of the text (`あ。`) it does not. -/
 theorem d12_checker_counterexample :
-    hasNonBreakWord [[[0xE3, 0x80, 0x82]]] [0x3042, 0x3002, 0x3042] 6 = .ok true ∧
-    hasNonBreakWord [[[0xE3, 0x80, 0x82]]] [0x3042, 0x3002] 6 = .ok false := by
+    hasNonBreakWord .cur [[[0xE3, 0x80, 0x82]]] [0x3042, 0x3002, 0x3042] 6 = .ok true ∧
+    hasNonBreakWord .cur [[[0xE3, 0x80, 0x82]]] [0x3042, 0x3002] 6 = .ok false := by
+  decide
+
+/-- **D12 repaired** (`.fix`): the same call now lets the break after `あ。` pass — the one-character
+entry `。` no longer suppresses it — while a two-character entry `あ。` ending there still vetoes. -/
+theorem d12_fixed_example :
+    hasNonBreakWord .fix [[[0xE3, 0x80, 0x82]]] [0x3042, 0x3002, 0x3042] 6 = .ok false ∧
+    hasNonBreakWord .fix [[[0xE3, 0x80, 0x82]]] [0x3042, 0x3002] 6 = .ok false ∧
+    hasNonBreakWord .fix [[[0xE3, 0x81, 0x82, 0xE3, 0x80, 0x82]]] [0x3042, 0x3002, 0x3042] 6 = .ok true := by
+  decide
+
+/-- **D12 repaired, iterator level** (`.fix`): with a dictionary listing `。` (alone, or with `あ`),
+`あ。あ。あ` is split after each `。`, exactly as without a checker. -/
+theorem d12_fixed_split_example :
+    split .fix 4096 (some [[[0xE3, 0x80, 0x82]]]) [0x3042, 0x3002, 0x3042, 0x3002, 0x3042]
+      = .ok [⟨0, 6, [0x3042, 0x3002]⟩, ⟨6, 12, [0x3042, 0x3002]⟩, ⟨12, 15, [0x3042]⟩] ∧
+    split .fix 4096 (some [[[0xE3, 0x80, 0x82], [0xE3, 0x81, 0x82]]]) [0x3042, 0x3002, 0x3042, 0x3002, 0x3042]
+      = .ok [⟨0, 6, [0x3042, 0x3002]⟩, ⟨6, 12, [0x3042, 0x3002]⟩, ⟨12, 15, [0x3042]⟩] := by
   decide
 
 /-- **Look-back limit** (clause "no break inside a multi-character dictionary word that ends with
-the terminator" — false on the unchanged code for words longer than 30 bytes): with the 11-character
+the terminator" — false for words longer than 30 bytes, with either variant of the checker): with the 11-character
 (33-byte) word `ああああああああああ。` in the dictionary, `ああああああああああ。い。` is split
 right after that word; `no_break_in_multichar_word` therefore carries the 30-byte window. -/
-theorem lookback_counterexample :
-    split 4096 (some [[[0xE3, 0x81, 0x82, 0xE3, 0x81, 0x82, 0xE3, 0x81, 0x82, 0xE3, 0x81, 0x82,
+theorem lookback_counterexample (v : CkVariant) :
+    split v 4096 (some [[[0xE3, 0x81, 0x82, 0xE3, 0x81, 0x82, 0xE3, 0x81, 0x82, 0xE3, 0x81, 0x82,
         0xE3, 0x81, 0x82, 0xE3, 0x81, 0x82, 0xE3, 0x81, 0x82, 0xE3, 0x81, 0x82, 0xE3, 0x81, 0x82,
         0xE3, 0x81, 0x82, 0xE3, 0x80, 0x82]]])
       [0x3042, 0x3042, 0x3042, 0x3042, 0x3042, 0x3042, 0x3042, 0x3042, 0x3042, 0x3042, 0x3002, 0x3044, 0x3002]
       = .ok [⟨0, 33, [0x3042, 0x3042, 0x3042, 0x3042, 0x3042, 0x3042, 0x3042, 0x3042, 0x3042, 0x3042, 0x3002]⟩,
              ⟨33, 39, [0x3044, 0x3002]⟩] := by
-  decide
+  cases v <;> decide
 
 /-- **D13** (converse clause with a small window — false on the unchanged code): limit 2,
 `あああ。あ。あ` is one sentence although both `。` are unbracketed terminators; with limit 4 it is
 split after each. -/
-theorem d13_counterexample :
-    split 2 none [0x3042, 0x3042, 0x3042, 0x3002, 0x3042, 0x3002, 0x3042]
+theorem d13_counterexample (v : CkVariant) :
+    split v 2 none [0x3042, 0x3042, 0x3042, 0x3002, 0x3042, 0x3002, 0x3042]
       = .ok [⟨0, 21, [0x3042, 0x3042, 0x3042, 0x3002, 0x3042, 0x3002, 0x3042]⟩] ∧
-    split 4 none [0x3042, 0x3042, 0x3042, 0x3002, 0x3042, 0x3002, 0x3042]
+    split v 4 none [0x3042, 0x3042, 0x3042, 0x3002, 0x3042, 0x3002, 0x3042]
       = .ok [⟨0, 12, [0x3042, 0x3042, 0x3042, 0x3002]⟩, ⟨12, 18, [0x3042, 0x3002]⟩, ⟨18, 21, [0x3042]⟩] := by
-  decide
+  cases v <;> decide
 
 /-- the hypothesis `1 ≤ limit` of `split_partition` is needed: with limit 0 `get_eos` returns
 `-0 = 0`, which `next` does not see as negative, and the iterator yields empty sentences forever -/
-theorem limit_zero_counterexample : split 0 none [0x3042] = .fuelOut := by
-  decide
+theorem limit_zero_counterexample (v : CkVariant) : split v 0 none [0x3042] = .fuelOut := by
+  cases v <;> decide
 
 /-! ## non-vacuity -/
 
 /-- the hypotheses of the theorems above are satisfiable and the conclusions are not trivially true:
 a text with three sentences, brackets, a quote particle and a checker -/
-example :
-    split 8 (some [[[0x61, 0x2E, 0x62]]])
+example (v : CkVariant) :
+    split v 8 (some [[[0x61, 0x2E, 0x62]]])
         [0xFF08, 0x3042, 0x3002, 0xFF09, 0x3002, 0x61, 0x2E, 0x62, 0x21, 0x3068, 0x3044, 0xFF01, 0x3046]
       = .ok [⟨0, 15, [0xFF08, 0x3042, 0x3002, 0xFF09, 0x3002]⟩,
              ⟨15, 28, [0x61, 0x2E, 0x62, 0x21, 0x3068, 0x3044, 0xFF01]⟩,
              ⟨28, 31, [0x3046]⟩] := by
-  decide
+  cases v <;> decide
 
 /-- the hypotheses of the converse theorems are satisfiable: `あ。い` has one match, ending at 2,
 which is not vetoed -/
-example : (2 : Nat) ∈ matchEnds 0 none 0 ([0x3042, 0x3002, 0x3044].take 4096) ∧
-    examine none [0x3042, 0x3002, 0x3044] ([0x3042, 0x3002, 0x3044].take 4096) 2 ≠ .veto ∧
+example (v : CkVariant) : (2 : Nat) ∈ matchEnds 0 none 0 ([0x3042, 0x3002, 0x3044].take 4096) ∧
+    examine v none [0x3042, 0x3002, 0x3044] ([0x3042, 0x3002, 0x3044].take 4096) 2 ≠ .veto ∧
     parenLevel (([0x3042, 0x3002, 0x3044].take 4096).take 2) = 0 ∧
     isItemizeHeader ([0x3042, 0x3002, 0x3044].take 4096) = false := by
-  decide
+  cases v <;> decide
 
 /-- `。` inside the match `！。` (position 2 of `あ！。い`) is such an inner terminator occurrence -/
 example : breakerAt (prevChar [0x3042, 0xFF01, 0x3002, 0x3044] 2) ([0x3042, 0xFF01, 0x3002, 0x3044].drop 2) = some 1 ∧
     matchEnds 0 none 0 [0x3042, 0xFF01, 0x3002, 0x3044] = [3] := by
   decide
 
-example : (1 : Nat) ≤ 8 ∧ ([0x3042] : Text) ≠ [] ∧ IsTerminator [0x3002] ∧
+example (v : CkVariant) : (1 : Nat) ≤ 8 ∧ ([0x3042] : Text) ≠ [] ∧ IsTerminator [0x3002] ∧
     IsTerminator [0x30FB, 0x30FB, 0x30FB] ∧
     IsTerminator [0x3C, 0x62, 0x72, 0x3E, 0x3C, 0x42, 0x52, 0x3E] ∧
-    getEos 4096 (some [[[0x3042, 0xE3, 0x80, 0x82]]]) [0x3042, 0x3002, 0x3042] = .ok (.pos 2) := by
+    getEos v 4096 (some [[[0x3042, 0xE3, 0x80, 0x82]]]) [0x3042, 0x3002, 0x3042] = .ok (.pos 2) := by
   refine ⟨by decide, by decide, Or.inl ⟨_, rfl, Or.inl (by decide)⟩,
-    Or.inr (Or.inl ⟨3, by decide, by decide⟩), Or.inr (Or.inr ⟨2, by decide, by decide, by decide⟩), by decide⟩
+    Or.inr (Or.inl ⟨3, by decide, by decide⟩), Or.inr (Or.inr ⟨2, by decide, by decide, by decide⟩),
+    by cases v <;> decide⟩
+
+/-- the hypotheses of `terminator_breaks_fix_partial` are satisfiable with a dictionary that lists the
+terminator itself: `あ。あ` with `{。, あ}` — the match ending at 2 is at level 0, not continued, and the
+only keys in the look-back are the one-character words `あ` (ends before the break) and `。` -/
+example : (2 : Nat) ∈ matchEnds 0 none 0 ([0x3042, 0x3002, 0x3042].take 4096) ∧
+    examine .fix (some [[[0xE3, 0x80, 0x82], [0xE3, 0x81, 0x82]]]) [0x3042, 0x3002, 0x3042]
+      ([0x3042, 0x3002, 0x3042].take 4096) 2 = .accept 2 ∧
+    examine .cur (some [[[0xE3, 0x80, 0x82], [0xE3, 0x81, 0x82]]]) [0x3042, 0x3002, 0x3042]
+      ([0x3042, 0x3002, 0x3042].take 4096) 2 = .veto ∧
+    OneCharWordAt [0x3042, 0x3002, 0x3042] 3 [0xE3, 0x80, 0x82] ∧
+    MultiCharWordAt [0x3042, 0x3002, 0x3042] 0 [0xE3, 0x81, 0x82, 0xE3, 0x80, 0x82] := by
+  refine ⟨by decide, by decide, by decide, ⟨[0x3042], 0x3002, [0x3042], rfl, by decide, by decide⟩,
+    ⟨[], [0x3042, 0x3002], [0x3042], rfl, by decide, by decide, by decide⟩⟩
 
 end C16
